@@ -36,6 +36,7 @@ import (
 	"go/types"
 	"os"
 	"path/filepath"
+	"regexp"
 	"sort"
 	"strings"
 	"time"
@@ -142,11 +143,12 @@ type world struct {
 	lits     map[string][]*litSite    // "pkgpath.Type" -> composite literals
 	fassign  map[*types.Var][]*assignSite
 	funcVals map[*types.Func]bool // function objects used other than as a callee
+	decoded  map[string]bool      // "pkgpath.Type": a value of the type is handed to a decoder somewhere (its fields may come from input/state)
 	scID     *types.Var           // field smartcontractinterface.SmartContract.ID
 	txnType  types.Type
 }
 
-var w = &world{calls: map[string][]*callSite{}, lits: map[string][]*litSite{}, fassign: map[*types.Var][]*assignSite{}, funcVals: map[*types.Func]bool{}}
+var w = &world{decoded: map[string]bool{}, calls: map[string][]*callSite{}, lits: map[string][]*litSite{}, fassign: map[*types.Var][]*assignSite{}, funcVals: map[*types.Func]bool{}}
 
 // dirsWithKeywords: phase 1 — a purely syntactic sweep over every non-test file of the module to decide which
 // packages have to be type-checked (loading all 88 packages with types costs > 25 s).
@@ -344,6 +346,21 @@ func index() {
 								if fo, ok := info.Uses[id].(*types.Func); ok {
 									w.calls[fo.Name()] = append(w.calls[fo.Name()], &callSite{ctx: ctx, call: x, fn: fo, inLoop: loop})
 								}
+								if decoderName.MatchString(id.Name) {
+									mark := func(e ast.Expr) {
+										if t := info.TypeOf(e); t != nil {
+											if nt, ok := deref(t).(*types.Named); ok && nt.Obj().Pkg() != nil {
+												w.decoded[nt.Obj().Pkg().Path()+"."+nt.Obj().Name()] = true
+											}
+										}
+									}
+									for _, a := range x.Args {
+										mark(a)
+									}
+									if se, ok := x.Fun.(*ast.SelectorExpr); ok {
+										mark(se.X)
+									}
+								}
 							}
 						case *ast.CompositeLit:
 							if t := info.TypeOf(x); t != nil {
@@ -378,6 +395,9 @@ func index() {
 		}
 	}
 }
+
+// decoderName: functions / methods that fill a value from bytes or from the state.
+var decoderName = regexp.MustCompile(`(?i)unmarshal|decode|gettrienode|getnodevalue|copyfrom|readfrom`)
 
 func deref(t types.Type) types.Type {
 	if p, ok := t.(*types.Pointer); ok {
@@ -517,6 +537,11 @@ func localDefs(ctx *fctx, v types.Object) []def {
 				if id, ok := e.(*ast.Ident); ok && same(id) {
 					ds = append(ds, def{nil, -1})
 				}
+			}
+		case *ast.UnaryExpr:
+			// &v handed to somebody: v may be written through the pointer (json.Unmarshal(b, &v), ...)
+			if id, ok := x.X.(*ast.Ident); ok && x.Op == token.AND && same(id) {
+				ds = append(ds, def{nil, -1})
 			}
 		}
 		return true
@@ -1157,6 +1182,16 @@ func (c *chaser) fields(ctx *fctx, items []item, via []string, inLoop bool, guar
 	}
 	key := st.Obj().Pkg().Path() + "." + st.Obj().Name()
 	n := 0
+	if w.decoded[key] {
+		// values of this struct are also produced by a decoder (input / state): the field can hold anything
+		next := append([]item(nil), items...)
+		v2, g2 := append([]string(nil), via...), guard
+		for _, i := range idxs {
+			c.giveUpItem(ctx, next, i, &v2, &g2)
+		}
+		n++
+		c.run(ctx, next, append(v2, st.Obj().Name()+" is also filled by a decoder"), inLoop, g2, depth+1)
+	}
 	for _, ls := range w.lits[key] {
 		next := append([]item(nil), items...)
 		any := false
